@@ -237,6 +237,11 @@ var nonCanonicalTexts = []string{
 	"0000-01-01T00:00:00Z", "2006-02-30T00:00:00Z", "2020-02-29T12:00:00+05:30", "1969-12-31T23:59:59.5Z", "1969-12-31T23:59:59.5-00:30", "2006-01-02T15:04:05+00:00", "2006-01-02T15:04:05-00:00",
 	"AQ==", "AAE=", "AAEC", "AAECAw==", "QUJD", "AQ", "A===", "AQ==\n", "A\nQ==", "AR==", "!!!!", "AAAAAAAAAAA=", "////", "++++",
 	"hello", "héllo", "\x00", "\xff\xfe", "a\"b\\c", " ", "😀",
+	// exponent spellings of integers (exact, beyond 2^53, at the bounds of the integer types), fractions in disguise
+	"9007199254740993e0", "-9007199254740993e0", "9223372036854775807e0", "18446744073709551615e0", "1.8446744073709551615e19", "9.223372036854775807E+18",
+	"12e1", "1.27e2", "1.28e2", "2.55e2", "2.56e2", "6.5535e4", "4294967295e0", "1e0", "1E+0", "10e-1", "15e-1", "1e19", "1e20", "-1e0",
+	// wall-clock years 0000 / 9999 whose UTC year is another one, and the reverse
+	"9999-12-31T23:30:00-01:00", "9999-12-31T23:59:59-23:59", "9999-12-31T23:30:00+01:00", "0000-01-01T00:30:00+01:00", "0000-01-01T00:00:00+23:59", "0000-01-01T00:30:00-01:00",
 }
 
 func textSources(r *rng, nRandom int) []srcVal {
